@@ -1,7 +1,7 @@
 (* C08 — a crash at any point of a kernel build never poisons the cache.
    Only statements here; proofs are in Proofs.v.  The obligations about the REAL traces
    (regenerated from strace on every run) are in coq/gen/C08_traces.v. *)
-From Coq Require Import List NArith Bool.
+From Coq Require Import List NArith Bool Arith.
 From OV.C08 Require Import Model Statements Proofs.
 Import ListNotations.
 Local Open Scope N_scope.
@@ -113,4 +113,57 @@ Example emitted_fresh :
    OCreate (T 1); OWrite (T 1); OClose (T 1); ORename (T 1) (F 3);
    OCreate (T 2); OWrite (T 2); OClose (T 2); ORename (T 2) (F 4);
    OCreate (T 3); OWrite (T 3); OClose (T 3); ORename (T 3) (F 5); ORead (F 5)].
+Proof. vm_compute. reflexivity. Qed.
+
+(* ---------------------------------------------------------------------------------------------
+   Staging groups and guards (GModel.v): the compiler-vendor probe and the OpenMP flag probe stage
+   several files in one io::stageFiles call; a builder killed between two renames of one group leaves
+   some targets present and others absent. *)
+From OV.C08 Require Import GModel GProofs.
+
+(* (6) Any number of group-staging processes, any schedule, either skip rule: no completion-tested
+   path is ever partial. *)
+Theorem groups_no_partial_final_any_schedule : forall owner any_skip progs s0 sched,
+  finals_ok s0 -> gfresh owner progs s0 ->
+  finals_ok (gs_fs (gsys_run any_skip {| gs_fs := s0; gs_procs := ginit progs |} sched)).
+Proof. exact GProofs.g_no_partial_final. Qed.
+Print Assumptions groups_no_partial_final_any_schedule.
+
+(* (7) With the code's rule (skip a group only if ALL its targets exist) every process that is
+   scheduled prog_size times finishes, and then either a guard found its file complete or every file
+   of every group of its program is complete — whatever the other processes did, including being
+   killed between two renames of one group. *)
+Theorem groups_all_succeed : forall owner progs s0 sched j pr,
+  finals_ok s0 -> gfresh owner progs s0 -> nth_error progs j = Some pr ->
+  (prog_size pr <= count_occ Nat.eq_dec sched j)%nat ->
+  let st := gsys_run false {| gs_fs := s0; gs_procs := ginit progs |} sched in
+  nth_error (gs_procs st) j = Some GDone /\ Good pr (gs_fs st) /\ finals_ok (gs_fs st).
+Proof. exact GProofs.g_all_succeed. Qed.
+Print Assumptions groups_all_succeed.
+
+(* (8) The variant that skips a group when ANY target exists is refuted: process 0 runs the OpenMP
+   probe and is killed between its two renames (binary published, output not); process 1 then finds
+   `binary`, skips the group and finishes without `output`. *)
+Definition omp0 : list instr := openmp_prog 20 5 12 100.
+Definition omp1 : list instr := openmp_prog 20 5 12 200.
+Theorem any_target_skip_refuted :
+  exists sched,
+    let st := gsys_run true {| gs_fs := []; gs_procs := ginit [omp0; omp1] |} sched in
+    nth_error (gs_procs st) 1 = Some GDone /\ lookup (F 12) (gs_fs st) = Absent.
+Proof. exists (repeat 0%nat 15 ++ repeat 1%nat 12). vm_compute. split; reflexivity. Qed.
+Print Assumptions any_target_skip_refuted.
+
+(* the same kill point with the code's rule: process 1 redoes the group and publishes both files *)
+Example all_targets_skip_recovers :
+  let st := gsys_run false {| gs_fs := []; gs_procs := ginit [omp0; omp1] |} (repeat 0%nat 15 ++ repeat 1%nat (prog_size omp1)) in
+  nth_error (gs_procs st) 1 = Some GDone /\
+  lookup (F 12) (gs_fs st) = Complete /\ lookup (F 5) (gs_fs st) = Complete.
+Proof. vm_compute. repeat split. Qed.
+
+Example vendor_probe_emits :
+  gemitted [] (vendor_prog 10 5 11 12 0) =
+  [OCreate (T 0); OWrite (T 0); OClose (T 0); ORename (T 0) (F 10);
+   OCreate (T 1); OWrite (T 1); OClose (T 1); OCreate (T 2); OWrite (T 2); OClose (T 2);
+   ORename (T 1) (F 5); ORename (T 2) (F 11);
+   OCreate (T 3); OWrite (T 3); OClose (T 3); ORename (T 3) (F 12)].
 Proof. vm_compute. reflexivity. Qed.
